@@ -199,3 +199,101 @@ pub fn with_sm9_candidates<T>(cands: Vec<[u8; 32]>, f: impl FnOnce() -> T) -> (R
 pub fn scalar_limbs(k: &BigUint) -> U256 {
     to_limbs(k)
 }
+
+/// Points of G1 = E(Fp): y^2 = x^3 + 5 whose coordinates sit at representation boundaries (x next to 0, N, p, 2^256 - p, powers of two;
+/// Montgomery x with all-ones / zero limbs; y with a leading zero byte). The curve has prime order, so every point is in G1.
+pub fn g1_edge_points() -> &'static Vec<(String, BigUint, BigUint)> {
+    use std::sync::OnceLock;
+    static V: OnceLock<Vec<(String, BigUint, BigUint)>> = OnceLock::new();
+    V.get_or_init(|| {
+        let pr = r9::params();
+        let p = pr.p;
+        let lift = |x: &BigUint| -> Option<BigUint> {
+            let xf = r9::fp(x);
+            xf.sqr().mul(&xf).add(&r9::fp_u(5)).sqrt_any().map(|y| y.v)
+        };
+        let mut out: Vec<(String, BigUint, BigUint)> = Vec::new();
+        let mut push = |label: String, x: &BigUint, y: &BigUint| {
+            out.push((format!("{}/y", label), x.clone(), y.clone()));
+            out.push((format!("{}/-y", label), x.clone(), (p - y) % p));
+        };
+        let mut walk = |label: &str, start: BigUint, up: bool, take: usize| {
+            let mut x = start;
+            let mut found = 0;
+            let mut steps = 0;
+            while found < take && steps < 4000 {
+                if &x < p {
+                    if let Some(y) = lift(&x) {
+                        push(format!("{}{}{}", label, if up { "+" } else { "-" }, steps), &x, &y);
+                        found += 1;
+                    }
+                }
+                if up {
+                    x += 1u32;
+                } else if x.is_zero() {
+                    break;
+                } else {
+                    x -= 1u32;
+                }
+                steps += 1;
+            }
+        };
+        let one = BigUint::one();
+        walk("x=0", BigUint::zero(), true, 2);
+        walk("x=p-1", p - 1u32, false, 3);
+        walk("x=N", pr.n.clone(), true, 2);
+        walk("x=N-1", &pr.n - 1u32, false, 2);
+        walk("x=(N+p)/2", (&pr.n + p) >> 1, true, 1);
+        walk("x=2^256-p", r256() - p, true, 1);
+        walk("x=2^256-p-1", r256() - p - 1u32, false, 1);
+        for e in [64u32, 128, 192, 248, 255] {
+            walk(&format!("x=2^{}", e), &one << e, true, 1);
+            walk(&format!("x=2^{}-1", e), (&one << e) - 1u32, false, 1);
+        }
+        let m = u64::MAX;
+        let pats: [(&str, [Option<u64>; 4]); 6] = [
+            ("mont=[M,M,*,*]", [Some(m), Some(m), None, None]),
+            ("mont=[0,0,*,*]", [Some(0), Some(0), None, None]),
+            ("mont=[*,M,M,*]", [None, Some(m), Some(m), None]),
+            ("mont=[M,*,M,*]", [Some(m), None, Some(m), None]),
+            ("mont=[M,M,M,*]", [Some(m), Some(m), Some(m), None]),
+            ("mont=[*,0,0,0]", [None, Some(0), Some(0), Some(0)]),
+        ];
+        for (label, pat) in pats.iter() {
+            let fill = crate::engine::expand_bytes(0x9ed6e ^ crate::engine::hash64(label), 32);
+            for t in 0..4000u64 {
+                let mut limbs = [0u64; 4];
+                for i in 0..4 {
+                    limbs[i] = match pat[i] {
+                        Some(v) => v,
+                        None => {
+                            let base = u64::from_le_bytes(fill[i * 8..i * 8 + 8].try_into().unwrap());
+                            let base = if i == 3 { base >> 1 } else { base };
+                            base.wrapping_add(t)
+                        }
+                    };
+                }
+                if &from_limbs(&limbs) >= p {
+                    continue;
+                }
+                let x = from_mont(&limbs);
+                if let Some(y) = lift(&x) {
+                    push(label.to_string(), &x, &y);
+                    break;
+                }
+            }
+        }
+        let mut x = from_limbs(&[0x1234_5678_9abc_def0, 0x0fed_cba9_8765_4321, 0x1111_2222_3333_4444, 0x5555_6666_7777_8888]);
+        for _ in 0..20_000 {
+            if let Some(y) = lift(&x) {
+                let y2 = (p - &y) % p;
+                if y.bits() <= 248 || y2.bits() <= 248 {
+                    push("y-leading-zero-byte".to_string(), &x, &y);
+                    break;
+                }
+            }
+            x += 1u32;
+        }
+        out
+    })
+}
